@@ -3,6 +3,8 @@ package main
 // Specification expression language: parser (Pratt) and typed evaluator to SMT terms.
 
 import (
+	"go/token"
+	"sort"
 	"os"
 	"fmt"
 	"go/ast"
@@ -308,6 +310,7 @@ func (p *sparser) postfix() (*SExpr, error) {
 // ---------- evaluation ----------
 
 type evalCtx struct {
+	renaming bool
 	noAlias bool
 	fr       *Frame
 	cur, old *State
@@ -542,6 +545,16 @@ func (c *evalCtx) ident(name string) (*Val, error) {
 	if c.pkg != nil {
 		if v, err := c.pkgObj(c.pkg, name); v != nil || err != nil {
 			return v, err
+		}
+	}
+	if fr.fn != nil && !c.renaming {
+		if alias := fr.renamedLocal(name); alias != "" {
+			n := *c
+			n.renaming = true
+			if v, err := n.ident(alias); err == nil {
+				fr.e.abstr[fmt.Sprintf("contract of %s names the local %q; the function now calls it %q (same position in the list of locals): read with the new name", fr.key, name, alias)] = true
+				return v, nil
+			}
 		}
 	}
 	return nil, fmt.Errorf("unbound:%s", name)
@@ -1218,6 +1231,80 @@ type dbgRef struct {
 	block  *ssa.BasicBlock
 	ord    int
 }
+
+// localNameOrder: the distinct names of the function's local variables in order of their first appearance in the
+// source (renaming a local keeps this order)
+func localNameOrder(fn *ssa.Function) []string {
+	type ent struct {
+		name string
+		pos  token.Pos
+	}
+	first := map[string]token.Pos{}
+	for _, b := range fn.Blocks {
+		for _, in := range b.Instrs {
+			if x, ok := in.(*ssa.DebugRef); ok {
+				if id, ok := x.Expr.(*ast.Ident); ok && id.Name != "_" {
+					v, isVar := x.Object().(*types.Var)
+					if !isVar || v.IsField() || v.Pkg() == nil || v.Parent() == v.Pkg().Scope() {
+						continue // only local variables
+					}
+					if p, seen := first[id.Name]; !seen || id.Pos() < p {
+						first[id.Name] = id.Pos()
+					}
+				}
+			}
+		}
+	}
+	params := map[string]bool{}
+	for _, p := range fn.Params {
+		params[p.Name()] = true
+	}
+	for _, fv := range fn.FreeVars {
+		params[fv.Name()] = true
+	}
+	var es []ent
+	for n, p := range first {
+		if !params[n] {
+			es = append(es, ent{n, p})
+		}
+	}
+	sort.Slice(es, func(i, j int) bool { return es[i].pos < es[j].pos })
+	var out []string
+	for _, e := range es {
+		out = append(out, e.name)
+	}
+	return out
+}
+
+// renamedLocal: a contract names a local variable that the function no longer has.  If the function's list of
+// locals (in order of first appearance) has the same length as on the unchanged tree and the contract's name stood
+// at a position where a name now stands that the unchanged tree did not have, the local was renamed: the clause is
+// read with the new name.
+func (fr *Frame) renamedLocal(name string) string {
+	if fr.fn == nil {
+		return ""
+	}
+	base := baselineLocals[fr.key]
+	if len(base) == 0 {
+		return ""
+	}
+	cur := localNameOrder(fr.fn)
+	if len(cur) != len(base) {
+		return ""
+	}
+	old := map[string]bool{}
+	for _, n := range base {
+		old[n] = true
+	}
+	for i, n := range base {
+		if n == name && cur[i] != name && !old[cur[i]] {
+			return cur[i]
+		}
+	}
+	return ""
+}
+
+var baselineLocals = map[string][]string{}
 
 func (fr *Frame) collectDebug() {
 	ord := 0
